@@ -37,6 +37,14 @@ def envelope_scripts(rng, tier):
     for ws in ([65, 95, 96, 97, 127, 129, 130, 159, 160, 161, 255, 257, 287, 1000, 1023, 1025, 32766] if tier == "quick" else
                list(range(64, 420)) + [1000, 1023, 1025, 4095, 4097, 32766]):
         cases.append(("window", dict(window=ws)))
+    # tag lengths above the scratch buffer in a half that does not ask for authentication (SRTCP authenticates regardless)
+    for tag in (17, 20):
+        for serv in (1, 0):
+            cases.append(("big-tag-no-auth-serv", dict(rtp=cp(taglen=tag, serv=serv), rtcp=cp(taglen=tag, serv=serv))))
+            cases.append(("big-tag-no-auth-serv-rtcp", dict(rtcp=cp(taglen=tag, serv=serv))))
+    # MKI switched off but an MKI size (and MKI values) left in the policy
+    for msz in (4, 128, 200):
+        cases.append(("mki-off-size", dict(mki=msz, mki_off=True)))
     for name, kw in cases:
         ssrc = rng.randrange(2, 1 << 32)
         klen = max(kw.get("rtp", cp())[1], kw.get("rtcp", cp())[1], 30)
@@ -46,7 +54,7 @@ def envelope_scripts(rng, tier):
         if "rtcp" in kw: p.rtcp = kw["rtcp"]
         if "window" in kw: p.window = kw["window"]
         if "mki" in kw:
-            p.keys = [(rand_key(rng, 30), bytes(range(kw["mki"])))]; p.use_mki = True; p.mki_size = kw["mki"]; p.use_key_field = False
+            p.keys = [(rand_key(rng, 30), bytes(range(kw["mki"])))]; p.use_mki = not kw.get("mki_off"); p.mki_size = kw["mki"]; p.use_key_field = False
         L = [p.line(1), "create 1 1", "create 2 1"]
         for i in range(3):
             pkt = rand_rtp(rng, ssrc, i + 1, ext_ok=False)
